@@ -889,7 +889,20 @@ def check_C18(tr):
 
 
 def check_C19(tr):
-    return check_ks_events(tr) + check_sequential(tr) + check_fidelity(tr) + check_unscripted_panic(tr)
+    bad = check_ks_events(tr) + check_sequential(tr) + check_fidelity(tr) + check_unscripted_panic(tr)
+    # an iterator that has been skipped to its end stays there, and so does every clone taken from it afterwards ("a clone
+    # starts at the original's current position"), per iterator slot
+    ended = {}
+    for oi in sorted([o for o in tr.ops if o.ret is not None], key=lambda o: o.call):
+        if oi.op == "skip":
+            ended.setdefault(oi.slot, oi.ret)
+        elif oi.op == "clone" and oi.slot in ended and oi.call > ended[oi.slot]:
+            ended.setdefault(int(oi.toks[1]), oi.ret)
+    for p in tr.ops:
+        if p.op in PULL_OPS and p.slot in ended and p.call > ended[p.slot] and tr.deliveries(p):
+            bad.append("iterator %d was skipped to its end (or cloned from a skipped one) at line %d, but the pull at line %d delivered %s" % (
+                p.slot, ended[p.slot], p.call, [(i, v) for (i, v, _) in tr.deliveries(p)][:3]))
+    return bad
 
 
 MONITORS = {
